@@ -33,8 +33,14 @@ def run_unit(unit):
         qual = unit["qual"]
         if unit.get("layout") and mode == "UNROLL":
             e.set_universe_layout([tuple(x) for x in unit["layout"]])
-        out["span"] = src.func_span(qual)
-        out["hash"] = src.func_hash(qual)
+        try:
+            out["span"] = src.func_span(qual)
+            out["hash"] = src.func_hash(qual)
+        except KeyError as ex:
+            # the function (or the block) under contract is no longer in the source: the proof is lost, not the checker broken
+            out["unsupported"] = "function under contract not found in the current source: %s" % (ex,)
+            out["gen_s"] = time.time() - t0
+            return out
         try:
             obs = e.verify(qual)
         except Unsupported as ex:
@@ -44,6 +50,15 @@ def run_unit(unit):
         out["gen_s"] = time.time() - t0
         out["trusted"] = sorted(e.trusted)
         out["inlined"] = sorted(e.inlined)
+        # digest of everything of /repo that this unit's verification conditions were generated from
+        import hashlib as _h
+        parts = [out["hash"]]
+        for q in out["inlined"]:
+            try:
+                parts.append(q + "=" + src.func_hash(q))
+            except Exception:
+                parts.append(q + "=?")
+        out["cone_hash"] = _h.sha256("|".join(parts).encode()).hexdigest()[:16]
         out["called_by_contract"] = sorted(e.called_by_contract)
         out["unwind_bounds"] = sorted(e.unwind_bounds)
         out["defaulted_params"] = e.defaulted_params
